@@ -32,6 +32,9 @@ type c16Input struct {
 	SinceNS     int64  `json:"since_ns,omitempty"`     // meaning of Since when present and well-formed
 	WantStepNS  *int64 `json:"want_step_ns,omitempty"` // meaning of an explicit, well-formed step
 	Malformed   string `json:"malformed,omitempty"`    // "start", "end", "since", "step": that flag must be rejected
+	// Exact: the spellings used carry nanoseconds (unix nanoseconds, RFC 3339 with nine fraction digits): the instants
+	// are compared to the nanosecond.
+	Exact bool `json:"exact,omitempty"`
 }
 
 type c16Obs struct {
@@ -135,6 +138,10 @@ func c16Check(r *vkit.Run, in c16Input) {
 		wantStart = *in.WantStartNS
 	}
 	// instants are compared at millisecond resolution (the fractional-seconds spelling carries no more)
+	if in.Exact && (obs.EndNS != wantEnd || obs.StartNS != wantStart) {
+		fail(fmt.Sprintf("range resolves to [%d, %d] ns, the spellings denote [%d, %d] ns exactly", obs.StartNS, obs.EndNS, wantStart, wantEnd), "")
+		return
+	}
 	if obs.EndNS/c16ms != wantEnd/c16ms {
 		fail(fmt.Sprintf("end resolves to %d ns, expected %d ns", obs.EndNS, wantEnd), "")
 		return
@@ -237,6 +244,17 @@ func c16Run(r *vkit.Run) {
 			ns := s*1e9 + ms*1e6
 			for _, text := range c16Spellings(ns) {
 				one(c16Input{Now: now, Start: sp(text), End: sp(strconv.FormatInt(s+10, 10)), WantStartNS: ip(ns), WantEndNS: ip((s + 10) * 1e9)}, true)
+			}
+		}
+	}
+	// instants off the millisecond grid, in the spellings that carry nanoseconds: the same instant, to the nanosecond
+	for _, s := range []int64{999999999, 1700000000, 7000000001} {
+		for _, sub := range []int64{1, 999, 500000, 999999, 1000001, 123456789, 999499999, 999500000, 999999999} {
+			ns := s*1e9 + sub
+			endNS := (s+10)*1e9 + sub
+			for _, text := range []string{strconv.FormatInt(ns, 10), time.Unix(0, ns).UTC().Format(time.RFC3339Nano), time.Unix(0, ns).In(time.FixedZone("", 5*3600+1800)).Format(time.RFC3339Nano)} {
+				one(c16Input{Now: now, Start: sp(text), End: sp(strconv.FormatInt(endNS, 10)), WantStartNS: ip(ns), WantEndNS: ip(endNS), Exact: true}, true)
+				one(c16Input{Now: now, Start: sp(strconv.FormatInt(s-10, 10)), End: sp(text), WantStartNS: ip((s - 10) * 1e9), WantEndNS: ip(ns), Exact: true}, true)
 			}
 		}
 	}
